@@ -687,6 +687,7 @@ type AbacoSource struct {
 	readPeriod   time.Duration
 	buffersChan  chan AbacoBuffersType
 	eTrigPackets []*packets.Packet // Unprocessed packets with external trigger info
+	frameNumLock sync.Mutex        // guards nextFrameNum: written by block assembly, read by the packet reader
 
 	unwrapOpts AbacoUnwrapOptions
 	AnySource
@@ -814,6 +815,10 @@ func (as *AbacoSource) Configure(config *AbacoSourceConfig) (err error) {
 
 // distributePackets sorts a slice of Abaco packets into the data queues according to the GroupIndex.
 func (as *AbacoSource) distributePackets(allpackets []*packets.Packet, now time.Time) {
+	// The frame counter is advanced by the block-assembly goroutine (distributeData).
+	as.frameNumLock.Lock()
+	nextFrameNum := as.nextFrameNum
+	as.frameNumLock.Unlock()
 	for _, p := range allpackets {
 		if p.IsExternalTrigger() {
 			as.eTrigPackets = append(as.eTrigPackets, p)
@@ -823,7 +828,7 @@ func (as *AbacoSource) distributePackets(allpackets []*packets.Packet, now time.
 		cidx := gIndex(p)
 		grp := as.groups[cidx]
 		grp.enqueuePacket(p, now)
-		grp.updateFrameTiming(p, as.nextFrameNum)
+		grp.updateFrameTiming(p, nextFrameNum)
 	}
 }
 
@@ -1223,11 +1228,13 @@ func (as *AbacoSource) distributeData(buffersMsg AbacoBuffersType) *dataBlock {
 				droppedFrames:   buffersMsg.droppedFrames,
 			}
 			block.segments[channelIndex] = seg
-			block.nSamp = len(data)
 		}(channelIndex)
 	}
 	wg.Wait()
+	block.nSamp = framesUsed // set once, here: every channel's goroutine used to write it
+	as.frameNumLock.Lock()
 	as.nextFrameNum += FrameIndex(framesUsed)
+	as.frameNumLock.Unlock()
 	if as.heartbeats != nil {
 		pmb := float64(buffersMsg.totalBytes) / 1e6
 		hwmb := float64(buffersMsg.totalBytes-buffersMsg.droppedBytes) / 1e6
